@@ -8,7 +8,7 @@ from vf.core import cZ, cbool, clist, cpair
 PID = "C03"
 MODULES = ["Prelude", "C03_Model", "C03_Spec", "C03_Check"]
 PROPS_MODULE = "C03_Properties"
-THEOREMS = ["C03_pick_sound", "C03_pick_complete", "C03_contacted_is_picked", "C03_disabled_no_traffic",
+THEOREMS = ["C03_pick_sound", "C03_pick_complete", "C03_stale_handle_never_routes", "C03_contacted_is_picked", "C03_disabled_no_traffic",
             "C03_disabled_no_new_probe", "C03_disabled_no_probe_at_all",
             "C03_disabled_no_probe_at_all_refuted_before_fix", "C03_macro_is_schedule"]
 EVAL = "C03_Check.eval"
@@ -114,6 +114,24 @@ def corpus():
         sync([(0, False), (1, False)]), P(0), P(0), REQ(2), REQ(2)]})
     cs.append({"kind": "hist", "ops": [
         sync([(0, False)]), P(0), T(0), T(0), T(0), sync([(0, True)]), sync([(0, False)]), P(0), P(0), P(0), P(0), T(0), P(0)]})
+    # stale handles: a picker and a ClusterInfo resolved before the cluster is deleted must not hand out endpoints
+    # afterwards (the stopped endpoints keep Healthy=true), nor after the cluster was re-created as a new object;
+    # a picker kept across a Sync that removes its endpoint does not return it either
+    cs.append({"kind": "hist", "ops": [
+        sync([(0, False), (1, False)], [0], []), P(0), P(1),
+        {"op": "match", "policy": 0, "slot": 0}, {"op": "match", "policy": 2, "slot": 1}, {"op": "hold", "slot": 0},
+        {"op": "pop", "slot": 0}, {"op": "pickone", "slot": 0}, REQ(2),
+        {"op": "delete"}, {"op": "pop", "slot": 0}, {"op": "pop", "slot": 1}, {"op": "pickone", "slot": 0}, REQ(2), REQ(0),
+        {"op": "match", "policy": 2, "slot": 2}, {"op": "hold", "slot": 2}, T(0), T(1),
+        sync([(0, False), (1, False)], [0], []), {"op": "pop", "slot": 0}, {"op": "pickone", "slot": 0}, P(0), P(1),
+        {"op": "pop", "slot": 0}, {"op": "pop", "slot": 1}, {"op": "pickone", "slot": 0},
+        {"op": "match", "policy": 0, "slot": 2}, {"op": "hold", "slot": 2}, {"op": "pop", "slot": 2}, {"op": "pickone", "slot": 2},
+        REQ(0), REQ(2)]})
+    cs.append({"kind": "hist", "ops": [
+        sync([(0, False), (1, False)], [0, 1], []), P(0), P(1), {"op": "match", "policy": 0, "slot": 0}, {"op": "hold", "slot": 1},
+        sync([(1, False)], [0, 1], []), {"op": "pop", "slot": 0}, {"op": "pop", "slot": 0}, {"op": "pickone", "slot": 1},
+        sync([], [0, 1], []), {"op": "pop", "slot": 0}, {"op": "pickone", "slot": 1}, {"op": "delete"}, {"op": "delete"},
+        {"op": "pop", "slot": 0}, {"op": "pickone", "slot": 1}, REQ(0)]})
     # TriggerHealthCheck on a disabled endpoint: the trigger waits for the next enable
     cs.append({"kind": "hist", "ops": [
         sync([(0, True)]), {"op": "trigger", "ep": 0}, T(0), REQ(2), sync([(0, False)]), P(0), P(0), REQ(2),
@@ -169,9 +187,15 @@ def gen_hist(rng, maxlen=40):
             ops.append(T(anyep()))
         elif k < 58:
             ops.append(P(anyep(), rng.choice([200, 200, 200, 200, 500, 503])))
-        elif k < 61:
+        elif k < 60:
             ops.append({"op": "trigger", "ep": anyep()})
-        elif k < 68:
+        elif k < 62:
+            ops.append({"op": "delete"})
+        elif k < 64:
+            ops.append({"op": "hold", "slot": rng.below(2)})
+        elif k < 66:
+            ops.append({"op": "pickone", "slot": rng.below(2)})
+        elif k < 70:
             sl = rng.below(3)
             slots.add(sl)
             ops.append({"op": "match", "policy": rng.choice([0, 0, 1, 1, 2, 3]), "slot": sl})
@@ -232,6 +256,12 @@ def coq_op(o):
         return "(OPop %s)" % cZ(o["slot"])
     if k == "request":
         return "(ORequest %s)" % cZ(o["policy"])
+    if k == "delete":
+        return "ODelete"
+    if k == "hold":
+        return "(OHold %s)" % cZ(o["slot"])
+    if k == "pickone":
+        return "(OPickOne %s)" % cZ(o["slot"])
     raise ValueError(k)
 
 
@@ -244,8 +274,10 @@ def coq_result(o, s):
     if k == "trigger":
         return "ROk" if res == "ok" else "RAbsent"
     if k == "match":
-        return {"ok": "ROk", "nomatch": "RNoMatch"}.get(res, "RErr")
-    if k == "pop":
+        return {"ok": "ROk", "nomatch": "RNoMatch", "nocluster": "RNoCluster"}.get(res, "RErr")
+    if k == "hold":
+        return {"ok": "ROk", "nocluster": "RNoCluster"}.get(res, "RErr")
+    if k in ("pop", "pickone"):
         if s["picked"] >= 0:
             return "(RPicked %s)" % cZ(s["picked"])
         return {"none": "RNoReady", "noslot": "RNoSlot"}.get(res, "RErr")
@@ -313,8 +345,8 @@ def stats(case, obs):
         k = o["op"]
         if k == "request":
             labs.append("request->%d" % s["code"])
-        elif k == "pop":
-            labs.append("pop->%s" % ("ep" if s["picked"] >= 0 else s["res"]))
+        elif k in ("pop", "pickone"):
+            labs.append("%s->%s" % (k, "ep" if s["picked"] >= 0 else s["res"]))
         elif k == "probe":
             labs.append("probe:%s->%s" % ("ok" if o["code"] == 200 else "fail", s["res"]))
         elif k == "tick":
